@@ -122,8 +122,7 @@ def decFixed : List Field → Bytes → Option (List Val × Option Nat × Bytes)
       | some s => (decFixed L (bs.drop n)).map fun (vs, l, r) => (.raw s :: vs, l, r)
   | .lenSelf w :: L, bs =>
       if bs.length < w then none else
-      (decFixed L (bs.drop w)).map fun (vs, l, r) =>
-        (vs, some (match l with | some x => x | none => beDec (bs.take w)), r)
+      (decFixed L (bs.drop w)).map fun (vs, _, r) => (vs, some (beDec (bs.take w)), r)
   | .const w v :: L, bs =>
       if bs.length < w then none else
       if beDec (bs.take w) = v then decFixed L (bs.drop w) else none
@@ -167,20 +166,22 @@ def encode (C : Codec E) (L : Layout) (r : Rec E) : Option Bytes :=
 /-- `unpack()`: the tail length is the declared total (own `lenSelf` field, else the `avail` handed down by the
     enclosing message — the third argument of the stats bodies' `unpack`) minus the fixed part.  A layout without
     tail ignores its length field (as the fixed-size classes do). -/
+def declared (len? avail : Option Nat) : Option Nat :=
+  match len? with
+  | some l => some l
+  | none => avail
+
 def decode (C : Codec E) (L : Layout) (avail : Option Nat) (bs : Bytes) : Option (Rec E × Bytes) :=
   match decFixed L.fixed bs with
   | none => none
   | some (vs, len?, r) =>
-    match L.tail with
-    | .none => some (⟨vs, .none⟩, r)
-    | tl =>
-      match (match len? with | some l => some l | none => avail) with
-      | none => none
-      | some tot =>
-        if tot < fixedSize L.fixed then none else
-        let n := tot - fixedSize L.fixed
-        if r.length < n then none else
-        (decTail C tl (r.take n)).map fun t => (⟨vs, t⟩, r.drop n)
+    if L.tail = .none then some (⟨vs, .none⟩, r) else
+    match declared len? avail with
+    | none => none
+    | some tot =>
+      if tot < fixedSize L.fixed then none else
+      if r.length < tot - fixedSize L.fixed then none else
+      (decTail C L.tail (r.take (tot - fixedSize L.fixed))).map fun t => (⟨vs, t⟩, r.drop (tot - fixedSize L.fixed))
 
 /-- the wire length field of an encoded record (what `ofp_header.pack` wrote from `len(self)`) -/
 def hdrLen (L : Layout) (bs : Bytes) : Option Nat :=
@@ -255,5 +256,84 @@ def LenExpr.agrees (elemSize : String → Option Nat) (L : Layout) (e : LenExpr)
   | .list _ _, .sum => true
   | .list _ fam, .count k => elemSize fam == some k
   | _, _ => false
+
+/-! ## Element families and the nesting tower
+
+`_unpack_actions` / `_unpack_queue_props` choose the element class from the 16-bit type code at the front of the
+element (unknown code → the generic class); ports, queues and stats entries are of one class.  `Elem n` is an element
+nested at most `n` deep (a queue-config reply holds queues which hold properties: depth 2). -/
+
+inductive Family where
+  | single (cls : String)
+  | byType (table : List (Nat × String)) (generic : String)
+  deriving DecidableEq, Repr, Inhabited
+
+structure Env where
+  layouts : List (String × Layout)
+  families : List (String × Family)
+  deriving Repr, Inhabited
+
+def Env.layout (env : Env) (cls : String) : Option Layout := env.layouts.lookup cls
+def Env.family (env : Env) (fam : String) : Option Family := env.families.lookup fam
+
+def classOf (table : List (Nat × String)) (generic : String) (t : Nat) : String :=
+  match table.lookup t with
+  | some c => c
+  | none => generic
+
+def pick (env : Env) (fam : String) (bs : Bytes) : Option String :=
+  match env.family fam with
+  | none => none
+  | some (.single c) => some c
+  | some (.byType table generic) => if bs.length < 2 then none else some (classOf table generic (beDec (bs.take 2)))
+
+def Elem : Nat → Type
+  | 0 => Empty
+  | n + 1 => String × Rec (Elem n)
+
+def codecAt (env : Env) : (n : Nat) → Codec (Elem n)
+  | 0 => Codec.empty
+  | n + 1 =>
+    { enc := fun _ e =>
+        match env.layout e.1 with
+        | some L => encode (codecAt env n) L e.2
+        | none => none
+      dec := fun fam bs =>
+        match pick env fam bs with
+        | none => none
+        | some cls =>
+          match env.layout cls with
+          | none => none
+          | some L => (decode (codecAt env n) L none bs).map fun (r, tl) => ((cls, r), tl) }
+
+/-- the element's class is the one the decoder will pick for it -/
+def Picks (env : Env) (fam cls : String) (L : Layout) (vals : List Val) : Prop :=
+  match env.family fam with
+  | none => False
+  | some (.single c) => c = cls
+  | some (.byType table generic) =>
+    ∃ nm t F vs, L.fixed = .uint nm 2 :: F ∧ vals = .num t :: vs ∧ classOf table generic t = cls
+
+/-- well-formed element at depth `n`: of a known class, fits its layout, self-delimiting (own length field or fixed
+    size), non-empty, and carries the type code under which its class is registered -/
+def okAt (env : Env) : (n : Nat) → String → Elem n → Prop
+  | 0, _, e => e.elim
+  | n + 1, fam, e =>
+    ∃ L, env.layout e.1 = some L ∧ Fits (codecAt env n) (okAt env n) L e.2 ∧ 0 < fixedSize L.fixed ∧
+      (hasLen L.fixed = true ∨ L.tail = .none) ∧ Picks env fam e.1 L e.2.vals
+
+/-! ## What the translator emits per codec class -/
+
+structure ClassInfo where
+  name : String
+  /-- `pack` / `_pack_body` as read from the source -/
+  packL : Layout
+  /-- `unpack` / `_unpack_body` as read from the source -/
+  unpackL : Layout
+  /-- `__len__` -/
+  lenL : LenExpr
+  /-- why values are not written/read verbatim (empty = regular class: the generic round trip is the whole story) -/
+  flags : List String
+  deriving DecidableEq, Repr, Inhabited
 
 end Pox.Layout
